@@ -39,9 +39,18 @@ RtaFails(e) ==
                   ELSE {"err_iff_no_fixed_point"})
 
 \* ---- C07 -------------------------------------------------------------------
+\* the least-WCET term of the callback under analysis must not exceed the smallest job cost that its
+\* own job_cost_iter yields for the interval (it is subtracted from the assumed response time)
+OwnLwOk(dm) == \A i \in 1..Len(dm.lw) : (dm.mj[i] > 0) => dm.lw[i] <= dm.mj[i]
+Ros2LwFails(e) ==
+    CASE e.op \in {"ros2_timer", "ros2_pp"} -> IF OwnLwOk(e.in.own) THEN {} ELSE {"own_least_wcet_not_above_smallest_job"}
+      [] e.op = "ros2_chain" -> IF OwnLwOk(e.in.last) THEN {} ELSE {"own_least_wcet_not_above_smallest_job"}
+      [] OTHER -> {}
+
 Ros2Fails(e) ==
     IF "panic" \in DOMAIN e.out \/ "hang" \in DOMAIN e.out THEN {"returns"}
-    ELSE LET v == Ros2Def(e.op, e.in)
+    ELSE Ros2LwFails(e) \cup
+         LET v == Ros2Def(e.op, e.in)
          IN IF v = NONE
             THEN (IF IsErr(e.out) THEN {} ELSE {"err_iff_no_fixed_point"})
             ELSE (IF IsOk(e.out) THEN (IF e.out.ok = v THEN {} ELSE {"equals_exhaustive_evaluation"})
